@@ -237,6 +237,55 @@ def quire_history(qt, rng, maxlen=24, state_ops=True):
             a = P(); toks += ['ap', a, (-a) & ((1 << n) - 1)]
     return qt + ' hist ' + ' '.join(x if isinstance(x, str) else '%x' % x for x in toks)
 
+_POW2 = {}
+def quire_tie_history(qt, rng):
+    """a history whose exact sum is (posit value) + (exactly half an ulp) +- (one tiny term anywhere below): the read-out must be
+    decided by the tiny term alone.  The leading bit is placed on every scale, with extra weight on the 64-bit limb boundaries of
+    Q32E2 (bit 63 of a limb: scales -113, -49, 15, 79) and the tiny term on every position down to the quire's last bit."""
+    import sys
+    from fractions import Fraction as Fr
+    sp = os.path.join(core.VERIF, 'tools')
+    if sp not in sys.path: sys.path.insert(0, sp)
+    from pyspec import rnd, to_rat, ilog2
+    n = QT[qt]; es = {8: 0, 16: 1, 32: 2}[n]
+    maxe = (n - 2) * (1 << es)
+    def pw(e):
+        k = (n, e)
+        if k not in _POW2: _POW2[k] = rnd(n, es, Fr(2) ** e)
+        return _POW2[k]
+    def split(t):                      # 2^t as a product of two representable powers of two
+        x = max(-maxe, min(maxe, t // 2)); return pw(x), pw(t - x)
+    M = (1 << n) - 1
+    for _ in range(100):
+        if n == 32 and rng.random() < 0.4:
+            e = rng.choice((-113, -49, 15, 79)) + rng.choice((0, 0, 0, -1, 1))
+            p = pw(e) + (rng.getrandbits(8) if rng.random() < 0.5 else 0)
+        else:
+            p = rng.randint(1, (1 << (n - 1)) - 2)
+        v = to_rat(n, es, p); nx = to_rat(n, es, p + 1)
+        e = ilog2(v)
+        if ilog2(nx) != e and nx != Fr(2) ** (e + 1): continue        # no fraction bit at this scale: rounding is not arithmetic
+        half = (nx - v) / 2
+        th = ilog2(half)
+        if half != Fr(2) ** th or abs(th) > 2 * maxe: continue
+        lo = -2 * maxe
+        if th - 1 < lo: continue
+        if n == 32 and rng.random() < 0.5:
+            limb_top = ((th - 1 + 240) // 64) * 64 - 240     # scale of bit 0 of the limb holding the tie bit
+            s_ = rng.choice((limb_top - 1, limb_top - 2, limb_top - 64, limb_top - 65, lo, th - 1))
+            s_ = max(lo, min(th - 1, s_))
+        else:
+            s_ = rng.randint(lo, th - 1)
+        terms = [['a1', p], ['ap', *split(th)]]
+        k = rng.random()
+        if k < 0.45: terms.append(['ap', *split(s_)])
+        elif k < 0.9: terms.append(['sp', *split(s_)])
+        if rng.random() < 0.5:                                   # the negated sum
+            terms = [[{'a1': 's1', 'ap': 'sp', 'sp': 'ap'}[t[0]]] + t[1:] for t in terms]
+        rng.shuffle(terms)
+        return qt + ' hist ' + ' '.join(x if isinstance(x, str) else '%x' % x for t in terms for x in t)
+    return qt + ' hist a1 1'
+
 def quire_history_px(N, rng, maxlen=10):
     """the same grammar on Q32E2 with PxE2<N> operands: N-bit posit patterns left-aligned in 32 bits (no inherent mp/ms methods)"""
     line = quire_history('q32' if N > 16 else ('q16' if N > 8 else 'q8'), rng, maxlen=maxlen)
@@ -322,6 +371,8 @@ def extra_streams(pid, tier, rng, scale):
                         trip = [toks[i:i + 3] for i in range(0, len(toks), 3)]
                         rng.shuffle(trip)
                         lines.append(qt + ' hist ' + ' '.join(' '.join(t) for t in trip))
+            for _ in range({'C04': 4000, 'C12': 4000, 'C16': 800, 'C17': 200}[pid] * scale * big):
+                lines.append(quire_tie_history(qt, rng))
     if pid in ('C14', 'C16', 'C17'):
         # Q32E2 with generic-width operands: PxE2<N>::from(&q), Quire<PxE2<N>>::to_posit, PxE2<N>::from(q) after a history
         cntpx = {'C14': 600, 'C16': 60, 'C17': 120}[pid] * scale * big
